@@ -527,9 +527,31 @@ def _in_mode(p_, truths):
     return True
 
 
+class _SplitIsinstance(ast.NodeTransformer):
+    """isinstance(x, (A, B)) == isinstance(x, A) or isinstance(x, B): the
+    mode of a path (slice key / int key) then decides each disjunct."""
+
+    def visit_Call(self, n):
+        self.generic_visit(n)
+        if isinstance(n.func, ast.Name) and n.func.id == "isinstance" and \
+                len(n.args) == 2 and isinstance(n.args[1], ast.Tuple) and \
+                len(n.args[1].elts) > 1 and isinstance(
+                    n.args[0], (ast.Name, ast.Attribute)):
+            return ast.copy_location(ast.BoolOp(ast.Or(), [
+                ast.Call(ast.Name("isinstance", ast.Load()),
+                         [acopy(n.args[0]), t], []) for t in n.args[1].elts]),
+                n)
+        return n
+
+
 def _frame_paths(world, c, name):
     fn = normalise(c.methods[name][1], world, FR, c, aliases="params",
                    primitives=("__init__",))
+    if any(isinstance(n, ast.Call) and isinstance(n.func, ast.Name) and
+           n.func.id == "isinstance" and len(n.args) == 2 and isinstance(
+               n.args[1], ast.Tuple) for n in ast.walk(fn)):
+        fn = _SplitIsinstance().visit(acopy(fn))
+        ast.fix_missing_locations(fn)
     return fn, paths.summaries(fn)
 
 
@@ -1224,22 +1246,39 @@ def _add_contains_views(run, world, mod, c):
         body = [s_ for s_ in f2.body if not (isinstance(s_, ast.Expr) and
                                              isinstance(s_.value,
                                                         ast.Constant))]
-        handler_rets = []
-        if len(body) == 1 and isinstance(body[0], ast.Try):
-            tr = body[0]
-            for h in tr.handlers:
-                handler_rets += [n.value for n in ast.walk(h) if isinstance(
-                    n, ast.Return)]
-            f2.body = list(tr.body) + list(tr.orelse)
-        ps = paths.summaries(f2)
+        # the exceptional paths (an operand without _bits / _data: not a
+        # frame) are paths of their own: each returns "not equal"
+        try:
+            ps = paths.summaries(f2, try_prefixes=True)
+        except paths.Unsupported as e_:
+            raise AnalysisError("Frame.%s: %s" % (name, e_))
         trees = []
-        okc = all(isinstance(x, ast.Constant) and x.value is const
-                  for x in handler_rets)
+        okc = True
         why = ""
         for p_ in ps:
             if p_.kind != "return":
                 raise AnalysisError("Frame.%s: a path without a result"
                                     % name)
+            if any(isinstance(t, ast.Name) and t.id.startswith("<")
+                   for (t, b) in p_.conds):
+                # (a path that returned inside the prefix of the try body
+                # is the same path without the exception: listed there)
+                plain = [(unparse(t), b) for (t, b) in p_.conds
+                         if not (isinstance(t, ast.Name) and
+                                 t.id.startswith("<"))]
+                twin_ = any(
+                    q_.kind == "return" and unparse(q_.expr) == unparse(
+                        p_.expr) and [(unparse(t), b) for (t, b) in
+                                      q_.conds] == plain
+                    for q_ in ps if q_ is not p_)
+                if twin_:
+                    continue
+                if not (isinstance(p_.expr, ast.Constant) and
+                        p_.expr.value is const):
+                    okc, why = False, ("an operand that is not a frame "
+                                       "(exception path) does not compare "
+                                       "as 'not equal'")
+                continue
             cs = []
             for (t, b) in p_.conds:
                 txt = unparse(t, 200)
